@@ -61,7 +61,7 @@ fn random_bytes(r: &mut Rng) -> Vec<u8> {
 
 pub fn run(ctx: &mut Ctx) {
     let prop = "C15";
-    ctx.ev.rule = "(a) validator: generated transactions with zero/negative quantities, prices, fees, totals and ratios: validate() reports an error iff the property's predicate holds; compared with the Lean model's error count. (b) library under catch_unwind with a time limit: parse_file on arbitrary byte strings (random bytes, DSL alphabet soup, one-byte corruptions, non-ASCII) and calculate() on hostile ledgers (zero quantities and prices, 1e-28, magnitudes up to 7.9e28, sells first, dates 0001-01-01/9999-12-31/range edges): Ok or Err, never a panic — except inside known-finding class overflowMagnitude (D9). (d) the MCP tools: one pipelined session per 24 requests of malformed JSON texts (raw newlines inside strings, truncated arrays, BOM), hostile ledgers and random bytes over calculate_report, parse_transactions, convert_to_dsl, explain_matching: every request id answered exactly once, clean exit. (f) covered sales dated at the ends of chrono's date range (library): no panic. (e) the Schwab converter in-process on generated exports (free text of up to 200 mixed-width characters), with and without an awards file, and on damaged JSON: a result or an error, never a panic. (c) the real binary: the same inputs as files, missing files (alone and among several inputs, as are a directory and a non-UTF-8 file), unwritable and pre-existing --output paths, default PDF path with an existing file: on failure non-zero exit (not 101, no signal), empty stdout, --output untouched; on success exit 0. Non-trivial = inputs that are rejected cleanly, and validator cases with ≥ 1 bad field; distinct by input.".into();
+    ctx.ev.rule = "(a) validator: generated transactions with zero/negative quantities, prices, fees, totals and ratios: validate() reports an error iff the property's predicate holds; compared with the Lean model's error count. (b) library under catch_unwind with a time limit: parse_file on arbitrary byte strings (random bytes, DSL alphabet soup, one-byte corruptions, non-ASCII) and calculate() on hostile ledgers (zero quantities and prices, 1e-28, magnitudes up to 7.9e28, sells first, dates 0001-01-01/9999-12-31/range edges): Ok or Err, never a panic — except inside known-finding class overflowMagnitude (D9). (d) the MCP tools: one pipelined session per 24 requests of malformed JSON texts (raw newlines inside strings, truncated arrays, BOM), hostile ledgers and random bytes over calculate_report, parse_transactions, convert_to_dsl, explain_matching: every request id answered exactly once, clean exit. (f) covered sales dated at the ends of chrono's date range (library): no panic. (g) hostile rates in an --fx-folder file (tiny, huge, zero, negative, non-numeric, exponent notation) for the month a foreign amount falls in, in-process and through the binary: a report or a clean error. (e) the Schwab converter in-process on generated exports (free text of up to 200 mixed-width characters), with and without an awards file, and on damaged JSON: a result or an error, never a panic. (c) the real binary: the same inputs as files, missing files (alone and among several inputs, as are a directory and a non-UTF-8 file), unwritable and pre-existing --output paths, default PDF path with an existing file: on failure non-zero exit (not 101, no signal), empty stdout, --output untouched; on success exit 0. Non-trivial = inputs that are rejected cleanly, and validator cases with ≥ 1 bad field; distinct by input.".into();
 
     // (f) dates at the ends of chrono's range (reachable through the library and the JSON input, whose years
     // are not limited to four digits): a covered sale within 30 days of the last or first representable date,
@@ -244,6 +244,55 @@ pub fn run(ctx: &mut Ctx) {
                     else { ctx.ev.violation("crash", format!("cgt-tool crashes on {name}: exit {:?}: {}", o.code, o.stderr.lines().next().unwrap_or("")), format!("# property C15\n# CLI crash\n{}\n", std::fs::read_to_string(s.path("in.cgt")).unwrap_or_default())); }
                 }
                 Some(_) => { if !o.stdout.is_empty() { ctx.ev.violation("oracle", "non-zero exit with a (partial) report on stdout".into(), format!("# property C15\n{}\n", std::fs::read_to_string(s.path("in.cgt")).unwrap_or_default())); } }
+            }
+        }
+        // (g) hostile rates in an --fx-folder file: tiny, huge, zero, negative and non-numeric rates for the
+        // month a foreign amount falls in: a report or a clean error, in-process and through the binary
+        {
+            use cgt_money::RateFile;
+            let cfg = run_impl::config_from(&run_impl::embedded_exemptions());
+            let rates: &[&str] = &["0.0000004", "0.0000001", "0.00000049", "0.000000999", "0.0000000001", "0.000001", "123456789012.5", "0", "-1.5", "abc", "", "1e-7", "0.00000000000000000000000001"];
+            for i in 0..ctx.n(26, 400) {
+                ctx.ev.evaluations += 1;
+                ctx.ev.count("fx:hostile-rate-cases");
+                let rate = rates[i as usize % rates.len()];
+                let y = 2027 + r.below(3) as i32;
+                let mo = 1 + r.below(12) as u32;
+                let code = *r.pick(&["USD", "EUR", "JPY"]);
+                let body = super::c08::xml((y, mo), &[(code, Decimal::ONE)]).replace("<rateNew>1</rateNew>", &format!("<rateNew>{rate}</rateNew>"));
+                let amount = Decimal::new(r.range(1, 100_000), 2);
+                let text = match i % 3 {
+                    0 => format!("{y}-{mo:02}-03 BUY AAA 10 @ {amount} {code}\n"),
+                    1 => format!("{y}-{mo:02}-03 BUY AAA 10 @ 5 FEES {amount} {code}\n{y}-{mo:02}-20 SELL AAA 4 @ 6\n"),
+                    _ => format!("{y}-{mo:02}-03 BUY AAA 10 @ 5\n{y}-{mo:02}-04 DIVIDEND AAA TOTAL {amount} {code} TAX 1 {code}\n{y}-{mo:02}-20 SELL AAA 4 @ 6\n"),
+                };
+                let case = format!("# property C15\n# --fx-folder file {y}-{mo:02}.xml with <rateNew>{rate}</rateNew> for {code}\n{text}");
+                // the quotient amount / rate can leave rust_decimal's range for the finest rates: D9's class
+                let fine = rate.parse::<Decimal>().map(|q| q > Decimal::ZERO && q < Decimal::new(1, 12)).unwrap_or(false);
+                let lib = std::panic::catch_unwind(std::panic::AssertUnwindSafe(|| {
+                    let cache = cgt_money::load_cache_with_overrides(vec![RateFile { name: std::path::PathBuf::from(format!("/rates/{y}-{mo:02}.xml")), modified: None, xml: body.clone() }]).map_err(|e| e.to_string())?;
+                    let txs = cgt_core::parser::parse_file(&text).map_err(|e| e.to_string())?;
+                    cgt_core::calculator::calculate(&txs, None, Some(&cache), &cfg).map(|_| ()).map_err(|e| e.to_string())
+                }));
+                match lib {
+                    Ok(Ok(())) => ctx.ev.count("fx:hostile-rate:report"),
+                    Ok(Err(_)) => { ctx.ev.count("fx:hostile-rate:clean-error"); ctx.ev.nontrivial.insert(format!("fxrate {rate} {code} {y}-{mo}")); }
+                    Err(_) if fine => ctx.ev.known("overflowMagnitude", D9),
+                    Err(_) => ctx.ev.violation("crash", format!("a rates file with <rateNew>{rate}</rateNew> makes the library panic"), case.clone()),
+                }
+                if i < ctx.n(13, 60) {
+                    ctx.ev.evaluations += 1;
+                    let sc = cli::Scratch::new();
+                    sc.write("in.cgt", &text);
+                    std::fs::create_dir_all(sc.path("fx")).ok();
+                    sc.write(&format!("fx/{y}-{mo:02}.xml"), &body);
+                    let o = cli::run(&sc, &["report", "in.cgt", "--format", "json", "--fx-folder", "fx"]);
+                    match o.code {
+                        Some(0) => { if o.stdout.is_empty() { ctx.ev.violation("oracle", "exit 0 with empty stdout".into(), case.clone()); } }
+                        Some(101) | None => { if fine && o.stderr.contains("verflow") { ctx.ev.known("overflowMagnitude", D9); } else { ctx.ev.violation("crash", format!("cgt-tool crashes on a rates file with <rateNew>{rate}</rateNew>: exit {:?}: {}", o.code, o.stderr.lines().next().unwrap_or("")), case.clone()); } }
+                        Some(_) => { if !o.stdout.is_empty() { ctx.ev.violation("oracle", "non-zero exit with a (partial) report on stdout".into(), case.clone()); } }
+                    }
+                }
             }
         }
         // (d) the MCP tools with hostile text: every request id answered exactly once, server survives
